@@ -27,7 +27,7 @@ ASSUMPTIONS = ["operation alphabet as listed in the evidence; typed elements are
 
 NP = NotPassed()
 PROBES = [
-    NP, None, True, 0, 1, 2, 1.5, "", "a", "ab", "abc", [], [1], [1, "a"], ["a"], {}, {"a": 1}, {"a": "s"}, {"a": 1, "b": 2}, {"b": 2},
+    NP, None, True, False, 0, 1, 2, 1.0, 1.5, "", "a", "ab", "abc", [], [1], [1, "a"], ["a"], {}, {"a": 1}, {"a": "s"}, {"a": 1, "b": 2}, {"b": 2},
     {"a": "s", "b": 2}, {"z": 1}, {"a": 1, "z": 1}, {"class": 3}, {"class": "x"}, {"a": 1, "b": "s", "c": True}, {"b": 7, "z": 0}, {"a": 1, "b": 2, "c": 3, "d": 4},
 ]
 
@@ -134,7 +134,8 @@ ELEMENT_KW_OPS = [
     set_kw("required", "['a']", lambda: ["a"]), set_kw("required", "NotPassed", lambda: NP),
     set_kw("additionalProperties", "False", lambda: False), set_kw("additionalProperties", "True", lambda: True),
     set_kw("additionalProperties", "Integer()", lambda: Integer()),
-    set_kw("const", "1", lambda: 1), set_kw("const", "NotPassed", lambda: NP),
+    set_kw("const", "1", lambda: 1), set_kw("const", "NotPassed", lambda: NP), set_kw("const", "True", lambda: True),
+    set_kw("enum", "[0, 1]", lambda: [0, 1]), set_kw("enum", "[False, True]", lambda: [False, True]), set_kw("enum", "NotPassed", lambda: NP),
     set_kw("items", "Integer()", lambda: Integer()), set_kw("items", "NotPassed", lambda: NP),
     set_kw("patternProperties", "{'^a': String()}", lambda: {"^a": String()}), set_kw("patternProperties", "NotPassed", lambda: NP),
     set_kw("default", "{'a': 1}", lambda: {"a": 1}), set_kw("minProperties", "2", lambda: 2),
